@@ -23,6 +23,14 @@ type c01List struct {
 	Recs []faRec `json:"records"`
 }
 
+// c01Mark: one long field (all 'n' / a repeating ACGT pattern) with ONE marked byte at one offset.
+type c01Mark struct {
+	Field  string `json:"field"` // "name" | "seq" (sequence on one line) | "seq-written" (as Write wraps it)
+	Len    int    `json:"field_len"`
+	Offset int    `json:"offset"`
+	Byte   int    `json:"byte"`
+}
+
 type c01Len struct {
 	Len    int    `json:"seq_len"`
 	Layout string `json:"layout"` // "written" (as produced by Write) or "w<width>" (re-wrapped at that width) each optionally +crlf, +nofinal
@@ -289,6 +297,57 @@ func runC01(r *core.Run) {
 				return out
 			}
 			return core.Outcome{Class: fmt.Sprint("len%80=", min(c.Len%80, 2), " ", c.Layout), Nontrivial: c.Len >= 2, Evals: 2}
+		})
+
+	r.Bound("marked-offsets", "a long name or sequence (8300 bytes: every offset; 70000 bytes: offsets 0..3, 4090..4100, 65530..65540, last 3) with ONE byte of the format's vocabulary ('>', ';' quick; thorough also ' ', TAB, '@', '+', 0x00, 0xFF) at that offset; followed by a second record")
+	core.Clause(r, "marked-offsets", core.Opts{Rule: "a format-vocabulary byte at EVERY offset of a long name (names may hold '>') and of a long sequence (never '>'), so that it meets every internal buffer boundary of the reader; written with Write, read back, second record must follow unshifted; non-trivial = all"},
+		func(emit func(c01Mark) bool) {
+			vocab := []int{'>', ';'}
+			if r.Thorough() {
+				vocab = append(vocab, ' ', '\t', '@', '+', 0x00, 0xFF)
+			}
+			for _, field := range []string{"name", "seq", "seq-written"} {
+				for _, v := range vocab {
+					if v == '>' && field != "name" {
+						continue
+					}
+					for off := 0; off < 8300; off++ {
+						if !emit(c01Mark{field, 8300, off, v}) {
+							return
+						}
+					}
+					for _, off := range []int{0, 1, 2, 3, 4090, 4091, 4092, 4093, 4094, 4095, 4096, 4097, 4098, 4099, 4100, 65530, 65531, 65532, 65533, 65534, 65535, 65536, 65537, 65538, 65539, 65540, 69997, 69998, 69999} {
+						if !emit(c01Mark{field, 70000, off, v}) {
+							return
+						}
+					}
+				}
+			}
+		},
+		func(c c01Mark) core.Outcome {
+			name, seq := []byte("seq1"), []byte("ACGT")
+			if c.Field == "name" {
+				name = bytes.Repeat([]byte{'n'}, c.Len)
+				name[c.Offset] = byte(c.Byte)
+			} else {
+				seq = longSeq(c.Len)
+				seq[c.Offset] = byte(c.Byte)
+			}
+			recs := []faRec{{core.S(name), core.S(seq)}, {"second", "GG"}}
+			var data []byte
+			if c.Field == "seq" {
+				data = []byte(">" + string(name) + "\n" + string(seq) + "\n>second\nGG\n")
+			} else {
+				var fail string
+				data, fail = writeFastaChecked(recs)
+				if fail != "" {
+					return core.Failf("%s", fail)
+				}
+			}
+			if out := checkFastaRead(data, recs, fmt.Sprintf("%s of %d bytes with %q at offset %d", c.Field, c.Len, byte(c.Byte), c.Offset)); out.Fail != "" {
+				return out
+			}
+			return core.Outcome{Class: c.Field, Nontrivial: true, Evals: 2}
 		})
 
 	core.Clause(r, "caller-memory", core.Opts{Rule: "Name and Sequence given as adjacent sub-slices of ONE backing buffer (with and without spare capacity behind them, in both orders): Write and MarshalText must leave the record's own bytes untouched and the round trip must hold; every pair of lengths 0..4 x 4 layouts; non-trivial = all"},
